@@ -148,6 +148,22 @@ func c08(r *core.Run) []*core.Violation {
 	cfg.NVals = 3 + t.Intn(4)
 	cfg.NUsers = 2 + t.Intn(2)
 	cfg.InitialHeight = 40
+	if t.Draw(3) == 1 {
+		// the periodic sweep for validators without accounts on every chain (height divisible by 303) falls into the run,
+		// and one validator has no external accounts at all on two or three chains
+		if len(cfg.Chains) == 1 {
+			cfg.Chains = append(cfg.Chains, ChainSpec{"bnb-main", 56})
+		}
+		if t.Draw(2) == 1 {
+			cfg.Chains = append(cfg.Chains, ChainSpec{"matic-main", 137})
+		}
+		if cfg.NVals < 4 {
+			cfg.NVals = 4
+		}
+		cfg.NoChainVals = map[int]bool{cfg.NVals - 1: true}
+		cfg.InitialHeight = int64(303 - 28 - t.Intn(20))
+		r.Stats.Probe("profile_missing_accounts_sweep")
+	}
 	cfg.Record = true
 	cfg.RestartPerMille = 10
 	cfg.FeeMultiplier = map[int]string{} // ties in relayer scores: everybody charges the same
